@@ -5,6 +5,8 @@ LEVEL = "proof"
 
 
 def run(ctx):
+    # leaf translator: theorems re-checked against the Gallina translation of the current Go source
+    generic.leaf_obligations(ctx, ['Word'])
     npat = 150 if ctx.quick() else 1500
     generic.standard(ctx, ["Props_C14", "Props_Pike", "Props_PikeSpan"], "c14", "engines-vs-reference", lists=(), model=True,
                      ledger="known/C14.ledger", extra_args=["-patterns", npat])
